@@ -216,7 +216,19 @@ Definition sig_impl_ok (c : sig_case) : bool :=
   forallb (fun q : bool * nat * list step * robs => let '(isres, idx, p, ob) := q in
      match ob with
      | RPanic => false
-     | RErr => true
+     | RErr =>
+         (* an error is an allowed answer except where the path ends in a plain scalar (a basic kind other
+            than string/complex, or a pointer) that the signature really has: that component has an address
+            and the property demands it *)
+         has_neg_index p ||
+         match List.nth_error (if isres then results else params) idx with
+         | Some v => match apply_path true (COk (snd v) dummy_addr) p with
+                     | COk (TBasic k) _ => is_complex k || match k with KString => true | _ => false end
+                     | COk (TPtr _) _ => false
+                     | _ => true
+                     end
+         | None => true
+         end
      | ROk s d b k =>
          negb (has_neg_index p) &&
          match b with
